@@ -454,6 +454,16 @@ impl GenCfg {
                 }
             }
         }
+        if rng.pct(25) {
+            // fresh names: this run's names carry a random letter suffix, so that a long-lived process keeps meeting
+            // names it has never seen (bounded symbol tables, interners and caches fill up and roll over at some point)
+            let sfx: String = (0..4).map(|_| (b'a' + rng.below(26) as u8) as char).collect();
+            for n in elem_names.iter_mut().chain(attr_names.iter_mut()) {
+                if !n.starts_with("xml") && !n.contains(':') {
+                    n.push_str(&sfx);
+                }
+            }
+        }
         let max_attrs = *rng.pick(&[0usize, 1, 2, 3, 5, 5, 14]);
         if max_attrs > 8 {
             // wide attribute lists (thresholds such as "more than 8 attributes" hide behind them)
